@@ -43,8 +43,11 @@ RefValues(stack, a, default) ==
   IN IF lvs = {} THEN {default}
      ELSE LET top  == Max(lvs)
               ms   == LevelMentions(stack, top, a)
-              last == Max({m[1] : m \in ms})
-          IN {stack[m[1]][m[2]][a] : m \in {x \in ms : x[1] = last}}
+              \* within the level: per section the last source that mentions a (the relative order of a parent group and
+              \* one of its sub groups is not documented: either may win)
+              secs == {m[2] : m \in ms}
+              lastOf(sec) == Max({m[1] : m \in {x \in ms : x[2] = sec}})
+          IN {stack[lastOf(sec)][sec][a] : sec \in secs}
 
 \* ---------------------------------------------------------------- implementation
 \* process_config_file: for the "rule" part every key (global, group, <rule id>) of a later source replaces the earlier
